@@ -44,8 +44,8 @@ type closure struct {
 // uptr is an unsafe.Pointer (or a pointer obtained from one that the engine
 // cannot give a typed meaning to).
 type uptr struct {
-	p   value       // the original typed pointer (or nil)
-	elt types.Type  // element type of the original pointer
+	p   value      // the original typed pointer (or nil)
+	elt types.Type // element type of the original pointer
 }
 
 // viewPtr is a *uintN obtained by unsafe conversion from a pointer into a byte
